@@ -94,7 +94,21 @@ func menuPaths() [][]Call {
 		{moveTo(P(1, 0)), lineTo(P(1, 1)), lineTo(P(0, 1)), closeCall()},                                   // closed triangle
 		{moveTo(P(1, 1)), quadTo(P(2, 1), P(2, 2))},                                                        // open curve
 		{moveTo(P(0, 0)), lineTo(P(1, 0)), moveTo(P(1, 1)), lineTo(P(2, 1)), lineTo(P(2, 2)), closeCall()}, // two subpaths
+		{moveTo(P(2, 0)), lineTo(P(2, 1)), moveTo(P(0, 2))},                                                // ends in a bare MoveTo
 	}
+}
+
+// appendCall2 is one Append call with two operands.
+func appendCall2(k1, k2 int) Call {
+	q1, q2 := menuPaths()[k1], menuPaths()[k2]
+	return Call{fmt.Sprintf("Append(%s, %s)", menuName(k1), menuName(k2)),
+		func(p *canvas.Path) *canvas.Path { return p.Append(BuildReal(q1), BuildReal(q2)) },
+		func(m *Model) {
+			_, m1 := Build(q1)
+			_, m2 := Build(q2)
+			m.Append(m1)
+			m.Append(m2)
+		}}
 }
 
 func joinCall(k int) Call {
@@ -172,6 +186,10 @@ func Alphabet() []Call {
 	}
 	for k := range menuPaths() {
 		a = append(a, appendCall(k))
+	}
+	// one Append call with two operands (an operand ending in a bare MoveTo first, last, not at all)
+	for _, kk := range [][2]int{{0, 2}, {1, 0}, {4, 0}, {2, 4}, {4, 3}} {
+		a = append(a, appendCall2(kk[0], kk[1]))
 	}
 	return a
 }
